@@ -8,11 +8,11 @@ VARIABLES l, st
 vars == <<l, st>>
 
 \* state from the observation; ghosts (paid set, rolled flags) are carried by the specification
-StOf(o, paid, rolled) ==
+StOf(o, paid, rolled, bondT) ==
   [ eps |-> [i \in 1 .. Len(o.eps) |->
                [id |-> o.eps[i].id, total |-> o.eps[i].total, available |-> o.eps[i].available,
-                claimed |-> o.eps[i].claimed, rolled |-> i \in rolled]],
-    dbal |-> o.dbal, w |-> o.w, grace |-> o.grace, paid |-> paid, first |-> o.first, bonded |-> o.bonded ]
+                claimed |-> o.eps[i].claimed, rolled |-> i \in rolled, start |-> o.eps[i].start]],
+    dbal |-> o.dbal, w |-> o.w, grace |-> o.grace, paid |-> paid, first |-> o.first, bonded |-> o.bonded, bondT |-> bondT ]
 RolledOf(s) == { i \in 1 .. NEp(s) : s.eps[i].rolled }
 
 Common(ev, t) ==
@@ -39,7 +39,9 @@ EvChecks(ev, t) ==
                                 \o << <<"C10.newepoch.collector-forwards-its-balance", ev.out.received = ev.pre.inflow>> >>
           ELSE Untouched(t)
      [] ev.ev = "claim" ->
-          IF ev.res = "ok" THEN ClaimChecks(st, ev.actor, t, ev.out.paid)
+          IF ev.res = "ok" THEN ClaimChecks(st, ev.actor, t, ev.out.paid,
+                                            \* epochs that started after the claimer (first) bonded
+                                            { i \in 1 .. NEp(st) : st.bondT[ev.actor] # "none" /\ st.bondT[ev.actor] \prec st.eps[i].start })
                                 \o << <<"drift.claim.reward=floor(total*share)", ImplRewards(ev, t)>> >>
           ELSE Untouched(t)
      [] ev.ev \in {"bond", "unbond", "tick", "setgrace"} -> Untouched(t)
@@ -55,13 +57,17 @@ Init == l = 1 /\ st = [eps |-> <<>>]
 Next ==
   /\ l <= Len(Rec)
   /\ LET ev == Rec[l] IN
-       IF ev.ev = "reset" THEN st' = StOf(ev.obs, {}, {})
+       IF ev.ev = "reset" THEN st' = StOf(ev.obs, {}, {}, [u \in Users |-> "none"])
        ELSE LET newPaid == IF ev.ev = "claim" /\ ev.res = "ok" /\ Len(ev.obs.eps) = NEp(st)
                            THEN st.paid \cup { <<ev.actor, i>> : i \in { j \in 1 .. NEp(st) : ev.obs.eps[j].available # st.eps[j].available } }
                            ELSE st.paid
                 newRolled == IF ev.ev = "newepoch" /\ ev.res = "ok" /\ Expiring(st) # 0
                              THEN RolledOf(st) \cup {Expiring(st)} ELSE RolledOf(st)
-                t == StOf(ev.obs, newPaid, newRolled)
+                \* the time since which the address has been bonded (reset when it unbonds everything)
+                newBondT == [u \in Users |->
+                               IF ~ev.obs.bonded[u] THEN "none"
+                               ELSE IF st.bondT[u] = "none" THEN ev.obs.now ELSE st.bondT[u]]
+                t == StOf(ev.obs, newPaid, newRolled, newBondT)
             IN Report(ev, Failed(EvChecks(ev, t))) /\ st' = t
   /\ l' = l + 1
 Spec == Init /\ [][Next]_vars
